@@ -119,6 +119,13 @@ func buildThrottleComponent(w *World, fault bool) (*throttleModel, error) {
 				m.bucketFld = fi
 			}
 		}
+		if m.bucketFld < 0 {
+			for fi, ok := range cand {
+				if !ok {
+					return nil, fmt.Errorf("VIOLATION: the throttler's bucket field %s is not always filled with the rate-limit bucket (another implementation can be installed: frames would no longer be bounded by the configured budget)", c.St.Field(fi).Name())
+				}
+			}
+		}
 	}
 	if m.bucketFld < 0 || m.listenFld < 0 {
 		return nil, fmt.Errorf("bucket / listener fields not resolved")
